@@ -19,7 +19,7 @@ pub struct Ctx {
     // per-case mutable state lives here (stores, trackers, ...)
     pub constr: similari::trackers::spatio_temporal_constraints::SpatioTemporalConstraints,
     pub store: fam_store::StoreCtx,
-    pub trk: fam_trk::TrkCtx,
+    pub trk: fam_trk::TrkSlots,
 }
 
 fn exec(ctx: &mut Ctx, line: &str) -> String {
